@@ -10,7 +10,7 @@ from fv.gen import dies as gd
 ID = "C01"
 RULE = ("lattice dies (<=12x12 cells; families int/binary/decimal/1e3/1e-3/random floats) with 0-10 disjoint regions tagged blockage / specialised / fixed "
         "(fixed ones delivered through an attached netlist), structural classes empty, full cover, ring, border, corners, chain, T-junction, single gap, random; "
-        "invalid descriptions with one defect by a clear margin; entry as WxH string, YAML text, tree, file; non-trivial = >=2 reported regions; distinct = distinct description")
+        "invalid descriptions with one defect by a clear margin; entry as WxH string, YAML text, tree, file, open handle; non-trivial = >=2 reported regions; distinct = distinct description")
 ASSUMPTIONS = [
     "valid = regions pairwise disjoint and inside the die as decimal/lattice values (what the user wrote); invalid overlaps/overhangs are at least a quarter of a region / one lattice cell",
     "tiling judged in exact arithmetic on the float values with 1e-9 relative tolerances",
@@ -19,7 +19,7 @@ ASSUMPTIONS = [
 CASES = {"quick": 6000, "thorough": 150000}
 MIN_CASES = {"quick": 1500, "thorough": 30000}
 REQUIRED_CLASSES = ["valid", "invalid"]
-REQUIRED_COUNTERS = ["tiling_checked", "inputs_unchanged_checked", "invalid_rejected_checked", "entry:text", "entry:file", "entry:tree",
+REQUIRED_COUNTERS = ["tiling_checked", "inputs_unchanged_checked", "invalid_rejected_checked", "entry:text", "entry:file", "entry:tree", "entry:handle",
                      "struct:empty", "struct:full_cover", "struct:ring", "struct:tjunction", "struct:border"]
 
 
@@ -29,7 +29,7 @@ def setup(ctx):
 
 def generate(rng, tier, i):
     d = gd.gen_die(rng, max_n=12 if tier == "quick" or rng.random() < 0.8 else 20)
-    entry = rng.choice(["tree", "tree", "text", "file"])
+    entry = rng.choice(["tree", "tree", "text", "file", "handle"])
     if not d["regions"] and rng.random() < 0.5:
         entry = "string"
     if not d["fixed"] and rng.random() < 0.15:
